@@ -190,7 +190,7 @@ def main(tier, seed, replay=None, pid=PID):
                                 "scikit-learn clusterers, RDC, G-test etc. are oracles: the theorems hold for every answer they could give"]
     cases = []; errors = []
     dist = dict(rows_methods={}, cols_methods={}, leaf={}, ops={}, errors=0, tasks=0, deferred=0)
-    for cfg in configs(rs, 48 if tier == "quick" else 400, tier):
+    for cfg in configs(rs, 48 if tier == "quick" else 1000, tier):
         import warnings
         with warnings.catch_warnings():
             warnings.simplefilter("ignore")
